@@ -174,4 +174,33 @@ example :
               ⟨3, .canceled, some 1, none⟩, ⟨4, .done, some 1, none⟩], [0]) := by
   rfl
 
+/-! ## the callback chain -/
+
+theorem runChain_prefix (pre : List Cb) (tm : Cb) (rest : List Cb) (h : ∀ c ∈ pre, c.raises = false) :
+    tm.id ∈ runChain (pre ++ tm :: rest) := by
+  induction pre with
+  | nil =>
+    simp only [List.nil_append, runChain]
+    split <;> simp
+  | cons c cs ih =>
+    have hc : c.raises = false := h c List.mem_cons_self
+    simp only [List.cons_append, runChain, hc, Bool.false_eq_true, if_false]
+    exact List.mem_cons_of_mem _ (ih (fun x hx => h x (List.mem_cons_of_mem _ hx)))
+
+/-- **an application callback on the pilot manager cannot keep a dying pilot's tasks alive**: the
+    task manager's callback is registered on the pilot object, so it has run before any callback of
+    the pilot manager is called - whatever those do (raise, return), and whatever callbacks were
+    registered on the pilot after it; only a raising callback registered on the pilot before it can
+    prevent it -/
+theorem C13_callback_order (pre post pmgr : List Cb) (tm : Cb) (h : ∀ c ∈ pre, c.raises = false) :
+    tm.id ∈ pilotUpdateCbs (pre ++ tm :: post) pmgr := by
+  unfold pilotUpdateCbs
+  rw [List.append_assoc, List.cons_append]
+  exact runChain_prefix pre tm (post ++ pmgr) h
+
+/-- with the pilot manager's callbacks called first, one that raises keeps the task manager's from
+    running (witness for the order) -/
+theorem C13_callback_order_witness :
+    (0 : Nat) ∉ runChain ([⟨7, true⟩] ++ [⟨0, false⟩]) := by decide
+
 end RPVerif.C13
